@@ -77,7 +77,8 @@ fn c14_program(rng: &mut Rng) -> String {
         let u = uniq;
         match rng.below(20) {
             0 | 1 => {
-                let m = *rng.pick(&["m0", "m1", "m2", "bump"]);
+                let avail: Vec<&str> = ["m0", "m1", "m2", "bump"].iter().cloned().filter(|m| levels.iter().take(j + 1).any(|l| l.methods.iter().any(|x| x == m))).collect();
+                let m = if !avail.is_empty() && !rng.chance(1, 12) { *rng.pick(&avail) } else { *rng.pick(&["m0", "m1", "m2", "bump"]) };
                 let args = match m {
                     "m1" => "7".to_string(),
                     "m2" => "7, 8".to_string(),
@@ -86,7 +87,8 @@ fn c14_program(rng: &mut Rng) -> String {
                 s.push_str(&format!("print(\"=~\\n\", c{}.{}({}));\n", j, m, args));
             }
             2 | 3 => {
-                let op = *rng.pick(&C14_OPS);
+                let avail: Vec<&str> = C14_OPS.iter().cloned().filter(|m| levels.iter().take(j + 1).any(|l| l.methods.iter().any(|x| x == m))).collect();
+                let op = if !avail.is_empty() && !rng.chance(1, 8) { *rng.pick(&avail) } else { *rng.pick(&C14_OPS) };
                 let arg = match rng.below(3) {
                     0 => "1".to_string(),
                     1 => "true".to_string(),
@@ -94,8 +96,18 @@ fn c14_program(rng: &mut Rng) -> String {
                 };
                 s.push_str(&format!("print(\"=~\\n\", c{} {} {});\n", j, op, arg));
             }
-            4 => s.push_str(&format!("print(\"=~\\n\", c{}[{}]);\n", j, rng.below(3))),
-            5 => s.push_str(&format!("print(\"=~\\n\", c{}[{}] <- {});\nprint(\"~\\n\", c{});\n", j, rng.below(3), 40 + u, j)),
+            4 => {
+                let ok = base == 3 || levels.iter().take(j + 1).any(|l| l.methods.iter().any(|x| x == "get"));
+                if ok || rng.chance(1, 10) {
+                    s.push_str(&format!("print(\"=~\\n\", c{}[{}]);\n", j, rng.below(3)))
+                }
+            }
+            5 => {
+                let ok = base == 3 || levels.iter().take(j + 1).any(|l| l.methods.iter().any(|x| x == "set"));
+                if ok || rng.chance(1, 10) {
+                    s.push_str(&format!("print(\"=~\\n\", c{}[{}] <- {});\nprint(\"~\\n\", c{});\n", j, rng.below(3), 40 + u, j))
+                }
+            }
             6 => {
                 if has_obj(j) {
                     s.push_str(&format!("print(\"f=~ tag=~\\n\", c{}.f{}, c{}.tag);\n", j, j, j));
@@ -129,7 +141,9 @@ fn c14_program(rng: &mut Rng) -> String {
                 }
             }
             11 => {
-                s.push_str(&format!("c{}.bump(); c{}.bump(); print(\"bumped ~\\n\", c{});\n", j, j, j));
+                if levels.iter().take(j + 1).any(|l| l.methods.iter().any(|x| x == "bump")) || rng.chance(1, 10) {
+                    s.push_str(&format!("c{}.bump(); c{}.bump(); print(\"bumped ~\\n\", c{});\n", j, j, j));
+                }
             }
             12 => s.push_str(&format!(
                 "let p{} = {}; let q{} = p{}; q{} <- q{} + 1; print(\"prim ~ ~ ~ ~\\n\", p{}, q{}, setp(p{}), p{});\n",
@@ -138,14 +152,16 @@ fn c14_program(rng: &mut Rng) -> String {
             13 => s.push_str(&format!("print(\"~\\n\", c{});\n", j)),
             14 => {
                 // explicit method syntax for operators and get/set
+                let has = |m: &str| levels.iter().take(j + 1).any(|l| l.methods.iter().any(|x| x == m));
                 let form = match rng.below(3) {
-                    0 => format!("c{}.+(2)", j),
-                    1 => format!("c{}.get(1)", j),
-                    _ => format!("c{}.set(0, {})", j, u),
+                    0 if has("+") || base == 1 => format!("c{}.+(2)", j),
+                    1 if has("get") || base == 3 => format!("c{}.get(1)", j),
+                    2 if has("set") || base == 3 => format!("c{}.set(0, {})", j, u),
+                    _ => format!("c{}.tag", if has_obj(j) { j } else { top }),
                 };
                 s.push_str(&format!("print(\"=~\\n\", {});\n", form));
             }
-            15 => {
+            15 if base == 3 || levels.iter().any(|l| l.methods.iter().any(|x| x == "set")) => {
                 // a method reached through the chain mutates the object that holds it
                 s.push_str(&format!("c{}.set(1, {}); print(\"chain ~\\n\", c{});\n", top, 300 + u, top));
             }
@@ -165,7 +181,6 @@ fn c14_program(rng: &mut Rng) -> String {
             s.push_str("print(\"unreachable?\\n\");\n");
         }
     }
-    let _ = levels;
     s
 }
 
